@@ -411,6 +411,8 @@ PROC_CLASS_PRED = {
     "idle": ("idle", 0), "blocked": ("blocked", 0), "sleep-short": ("sleeping", 10), "sleep-long": ("sleeping", 300),
     "busy": ("busy", 0), "swallow": ("swallow", 0), "extra0": ("extra0", 0), "extra1": ("extra1", 0),
     "sighandler": ("swallow", 0), "sigign": ("swallow", 0),
+    # main_thread_only worker, a sleeping body, two further remote_execs (a refused one and its retry) before the end
+    "mto-retry": ("sleeping", 300),
     "transfer-in": ("blocked", 0), "transfer-out": ("blocked", 0),
 }
 
@@ -425,12 +427,16 @@ def gen_process_cases(ctx, rng):
             ("popen", "idle", "bootstrap", "kill"), ("popen", "blocked", "mid-exec", "close"), ("popen", "busy", "mid-exec", "exit"),
             # one full ladder on every run (15 s, in parallel with the others): the code under execution took over SIGINT
             ("popen", "sighandler", "mid-exec", "kill"),
+            # main_thread_only: overlapping remote_execs were refused before the initiator went away — the receiver thread
+            # must still be reading (and see the EOF)
+            ("popen", "mto-retry", "mid-exec", "kill"),
         ]
         for topo, cls, moment, mode in base:
             cases.append(dict(topo=topo, cls=cls, moment=moment, mode=mode, delay=round(rng.uniform(0.0, 0.3), 3)))
         return cases
     topos = ["popen", "via", "socket"] * (3 if ctx.thorough else 1)   # thorough: three draws of delays / skipped modes
     classes = ["idle", "blocked", "sleep-short", "sleep-long", "busy", "swallow", "extra0", "extra1", "sighandler", "sigign"]
+    cases += [dict(topo="popen", cls="mto-retry", moment="mid-exec", mode=m, delay=round(rng.uniform(0.0, 0.5), 3)) for m in ("kill", "_exit")]
     for topo in topos:
         for cls in classes:
             for mode in ("kill", "_exit", "close", "exit"):
